@@ -1309,6 +1309,15 @@ def check_p2h(rec, case):
     rec.ev()
     rec.count("p2h.calls")
     try:
+        if T is None and n >= 3:
+            # call history: another grid with the same number of levels and the same end pressures was
+            # converted just before (a uniform-in-log companion of the grid under test)
+            with np.errstate(all="ignore"):
+                comp = np.geomspace(p[0], p[-1], n)
+                comp[0], comp[-1] = p[0], p[-1]
+                if np.all(np.diff(comp) < 0) or np.all(np.diff(comp) > 0):
+                    atm.pressure2height(comp)
+                    rec.count("p2h.companion_grid_first")
         with np.errstate(all="ignore"):
             z = atm.pressure2height(p_in.copy()) if T is None else atm.pressure2height(p_in.copy(),
                                                                                         T.copy())
